@@ -446,8 +446,10 @@ def round_tie(ctx, d, p, values):
     pool.append((rng.choice([0, 14, 300, 323]), rng.choice([5e-324, -5e-324, 2.2250738585072014e-308,
                                                              1.7976931348623157e308, -1.7976931348623157e308,
                                                              INF, -INF, 0.0, -0.0, 2.0 ** 52 + 0.5, 2.0 ** 53])))
+    vals = [x for _, x in pool[:8]] + [d["lo"], d["hi"], 0.0, -0.0, math.nan, INF, -INF]
+    pairs = [(rng.choice(vals), rng.choice(vals)) for _ in range(10)]
     m = ctx.lean.ask({"p": "C02", **wire_prior(d), "us": [],
-                      "rounds": [[n, f2h(x)] for n, x in pool]})
+                      "rounds": [[n, f2h(x)] for n, x in pool], "cmp": [[f2h(a), f2h(b)] for a, b in pairs]})
     if "driver_error" in m:
         ctx.disagree("driver", {"prior": canon_prior(d)}, None, m.get("driver_error"))
         return
@@ -465,12 +467,6 @@ def round_tie(ctx, d, p, values):
         if not isinstance(want, str) and math.isfinite(x) and not math.isfinite(want):
             ctx.disagree("round(x, n) finite", {"x": num(x), "n": n}, num(want), num(got))
     # order
-    vals = [x for _, x in pool[:8]] + [d["lo"], d["hi"], 0.0, -0.0, math.nan, INF, -INF]
-    pairs = [(rng.choice(vals), rng.choice(vals)) for _ in range(10)]
-    m = ctx.lean.ask({"p": "C02", **wire_prior(d), "us": [], "cmp": [[f2h(a), f2h(b)] for a, b in pairs]})
-    if "driver_error" in m:
-        ctx.disagree("driver", {"prior": canon_prior(d)}, None, m.get("driver_error"))
-        return
     for (a, b), mc in zip(pairs, m["cmp"]):
         if [a <= b, a < b] != [bool(mc[0]), bool(mc[1])]:
             ctx.disagree("Dbl order = float order", {"a": num(a), "b": num(b)}, [a <= b, a < b], mc)
@@ -513,6 +509,164 @@ def unit_limit_law(ctx, d, a, b, ratio_overflow):
     else:
         ctx.disagree("unit limits of the uniform families = (eps, 1 - eps)", {"prior": canon_prior(d)},
                      [num(a), num(b)], [1e-14, num(want_b)])
+
+
+# ---------------------------------------------------------------------------------------------
+# less-travelled routes to a prior: the same bit-exact gate comparison on priors that were not built by
+# their constructor call in `build`
+
+
+TYPE_KIND = {"Uniform": "U", "LogUniform": "L", "Gaussian": "G", "LogGaussian": "N"}
+
+
+def desc_of_dict(pd):
+    """descriptor from a prior dict / config entry (what the route was *asked* to build)"""
+    k = TYPE_KIND[pd["type"]]
+    d = {"kind": k}
+    lo_default, hi_default = {"U": (0.0, 1.0), "L": (1e-6, 1.0), "G": (-INF, INF), "N": (0.0, INF)}[k]
+    d["lo"] = float(pd.get("lower_limit", lo_default))
+    d["hi"] = float(pd.get("upper_limit", hi_default))
+    if k in "GN":
+        d["mean"], d["sigma"] = float(pd["mean"]), float(pd["sigma"])
+    return d
+
+
+def gate_tie(ctx, route, q, dq, cfg, units):
+    """q was obtained by `route` and should be the prior described by dq: its attributes, its raw quantile
+    (against a freshly constructed prior, same arithmetic -> same bits), and value_for = finish / finishD of
+    its raw value with dq's limits (the model), with and without ignore_prior_limits; the property itself on
+    the outputs (inside dq's limits or the limit exception)"""
+    case = {"prior": canon_prior(dq), "units": [num(u) for u in units], "seeds": [], "route": route}
+    try:
+        fresh = build(dq)
+    except Exception as e:  # noqa
+        ctx.hit("route-fresh-unavailable:" + type(e).__name__)
+        return
+    attrs = [("lower_limit", dq["lo"]), ("upper_limit", dq["hi"])]
+    if dq["kind"] in "GN":
+        attrs += [("mean", dq["mean"]), ("sigma", dq["sigma"])]
+    for name, want in attrs:
+        got = call(lambda: getattr(q, name))
+        if isinstance(got, str) or not bits_same(got, float(want)):
+            ctx.fail("C02-route-parameters", f"prior obtained by {route}: {name} = {got!r}, expected {want!r}", case)
+            return
+    if type(q) is not type(fresh):
+        ctx.fail("C02-route-parameters", f"prior obtained by {route} is a {type(q).__name__}, expected "
+                 f"{type(fresh).__name__}", case)
+        return
+    raw = [call(q.message.value_for, u) for u in units]
+    raw_f = [call(fresh.message.value_for, u) for u in units]
+    out = [call(q.value_for, u) for u in units]
+    ign = [call(q.value_for, u, ignore_prior_limits=True) for u in units]
+    idx = [i for i in range(len(units)) if not isinstance(raw[i], str)]
+    for i in range(len(units)):
+        if isinstance(raw[i], str) != isinstance(raw_f[i], str) or \
+                (not isinstance(raw[i], str) and not bits_same(raw[i], raw_f[i])):
+            ctx.fail("C02-route-quantile", f"prior obtained by {route}: message.value_for({units[i]!r}) = {raw[i]!r}, "
+                     f"a freshly constructed prior with the same parameters gives {raw_f[i]!r}", case)
+            return
+    wp = wire_prior(dq)
+    m = ctx.lean.ask({"p": "C02", "cfg": cfg, "ignore": False, **wp, "us": [], "raws": [f2h(raw[i]) for i in idx]})
+    m2 = ctx.lean.ask({"p": "C02", "cfg": cfg, "ignore": True, **wp, "us": [], "raws": [f2h(raw[i]) for i in idx]})
+    if "driver_error" in m or "driver_error" in m2:
+        ctx.disagree("driver", case, None, m.get("driver_error") or m2.get("driver_error"))
+        return
+    L, U = dq["lo"], dq["hi"]
+    for j, i in enumerate(idx):
+        for name, mm, real in (("value_for", m, out[i]), ("value_for(ignore)", m2, ign[i])):
+            fin = out_of(mm["fin"][j])
+            ok = same(fin, real)
+            if ok and cfg.get("repaired", True):
+                fd = out_of(mm["finD"][j])
+                ok = (fd == real) if (isinstance(fd, str) or isinstance(real, str)) else \
+                    (bits_same(fd, real) or (fd == 0.0 and real == 0.0))
+            if not ok:
+                ctx.disagree(f"{route}: {name} = finish(message.value_for)", case, num_or(real), num_or(fin))
+        o = out[i]
+        if not isinstance(o, str) and not (L <= o <= U):
+            ctx.fail("C02-out-of-limits-returned", f"prior obtained by {route}: value_for({units[i]!r}) returned {o!r}, "
+                     f"outside [{L!r}, {U!r}]", case)
+        if o == "limit" and not isinstance(ign[i], str) and L <= ign[i] <= U and L <= raw[i] <= U:
+            ctx.fail("C02-spurious-limit-exception", f"prior obtained by {route}: value_for({units[i]!r}) raised although "
+                     f"the mapped value {ign[i]!r} is inside [{L!r}, {U!r}]", case)
+    ctx.hit("route:" + route.split("(")[0])
+
+
+def route_tie(ctx, d, p, cfg):
+    """routes from an existing prior: dict round trip, copies, pickling, with_limits class methods"""
+    import copy as _copy
+    import pickle as _pickle
+    rng = ctx.rng
+    units = [0.0, 1.0, 0.5, rng.random(), rng.random(), 2.0 ** -rng.randint(1, 60)]
+    routes = []
+
+    def attempt(name, f, dq, must=True):
+        try:
+            routes.append((name, f(), dq))
+        except Exception as e:  # noqa
+            ctx.hit("route-unavailable:" + name + ":" + type(e).__name__)
+            if must:
+                # these routes work for every constructible prior on the unchanged code
+                ctx.disagree("route available: " + name, {"prior": canon_prior(d), "route": name},
+                             "exc:" + type(e).__name__, "prior")
+
+    if rng.random() < 0.5:
+        attempt("from_dict(dict())", lambda: af.Prior.from_dict(p.dict()), d)
+    else:
+        attempt("from_dict(json)", lambda: af.Prior.from_dict(json.loads(json.dumps(p.dict()))), d)
+    which = rng.choice(["deepcopy", "pickle", "new", "tree"])
+    if which == "deepcopy":
+        attempt("deepcopy", lambda: _copy.deepcopy(p), d)
+    elif which == "pickle":
+        attempt("pickle", lambda: _pickle.loads(_pickle.dumps(p)), d)
+    elif which == "new":
+        attempt("new", lambda: p.new().new(), d)
+    elif hasattr(type(p), "tree_flatten"):
+        attempt("tree_unflatten", lambda: type(p).tree_unflatten(*reversed(p.tree_flatten())), d, must=False)
+    k = d["kind"]
+    lo, hi = d["lo"], d["hi"]
+    if k == "G" and math.isfinite(lo) and math.isfinite(hi) and math.isfinite(hi - lo) and hi - lo > 0:
+        attempt("GaussianPrior.with_limits", lambda: p.with_limits(lo, hi),
+                {"kind": "G", "mean": (lo + hi) / 2, "sigma": hi - lo, "lo": -INF, "hi": INF})
+    if k == "L":
+        lo2 = lo * rng.choice([1.0, 1.5, 1e-9]) if rng.random() < 0.7 else 0.0
+        if max(0.000001, lo2) < hi:
+            attempt("LogUniformPrior.with_limits", lambda: p.with_limits(lo2, hi),
+                    {"kind": "L", "lo": max(0.000001, lo2), "hi": hi})
+    if k == "U" and math.isfinite(hi - lo):
+        a2, b2 = sorted([lo + rng.uniform(-0.5, 1.0) * (hi - lo), lo + rng.uniform(0.0, 1.5) * (hi - lo)])
+        if max(a2, lo) < min(b2, hi):
+            attempt("UniformPrior.with_limits", lambda: p.with_limits(a2, b2),
+                    {"kind": "U", "lo": max(a2, lo), "hi": min(b2, hi)})
+    for name, q, dq in routes:
+        if isinstance(q, af.Prior):
+            gate_tie(ctx, name, q, dq, cfg, units)
+        else:
+            ctx.fail("C02-route-parameters", f"{name} did not return a prior: {q!r}", {"prior": canon_prior(d), "route": name})
+
+
+def config_route(ctx, cfg):
+    """priors created from the config defaults (af.Model(cls)): built from the YAML entry, compared with it"""
+    import vlib
+    from autoconf import conf
+    rng = ctx.rng
+    classes = [af.ex.Gaussian, af.ex.Exponential] + [getattr(vlib, n) for n in ("P1", "P2", "P3") if hasattr(vlib, n)]
+    for cls in classes:
+        try:
+            model = af.Model(cls)
+            tuples = list(model.prior_tuples)
+        except Exception as e:  # noqa
+            ctx.hit("route-unavailable:config:" + type(e).__name__)
+            continue
+        for name, q in tuples:
+            try:
+                entry = conf.instance.prior_config.for_class_and_suffix_path(cls, [name])
+                dq = desc_of_dict(entry)
+            except Exception as e:  # noqa
+                ctx.hit("route-unavailable:config-entry:" + type(e).__name__)
+                continue
+            units = [0.0, 1.0, 0.5, rng.random(), rng.random()]
+            gate_tie(ctx, f"config({cls.__name__}.{name})", q, dq, cfg, units)
 
 
 def one_prior(ctx, d, units=None, seeds=None, cfg=None, label="gen", mp_queue=None):
@@ -850,6 +1004,8 @@ def one_prior(ctx, d, units=None, seeds=None, cfg=None, label="gen", mp_queue=No
                      {"prior": canon_prior(d), "derived": canon_prior(d2), "how": how, "units": [num(u) for u in probes]},
                      {"got": got, "want": want})
 
+    if label != "gen" or rng.random() < 0.4:
+        route_tie(ctx, d, p, cfg)
     case0["seeds"] = [list(s) for s in sub]
     ctx.case(case0, nontrivial=n_values >= 3,
              sample={"prior": canon_prior(d), "units": [num(u) for u in units[:6]],
@@ -982,6 +1138,7 @@ def run(ctx):
             d, units, seeds = load_case(c)
             d["stream"] = "corpus"
             one_prior(ctx, d, units, seeds if seeds else None, cfg=cfg, label=f.name)
+        config_route(ctx, cfg)
         n = ctx.n(500, 10000)
         mp_queue = [] if ctx.tier == "thorough" else None
         recent = []
